@@ -61,7 +61,7 @@ PROPERTY = "C05"
 DRIVER = "drv_c05"
 PROPS = ["PartituraModel.Props.C05", "PartituraModel.Props.C05Compose", "PartituraModel.Props.C05Collapse",
          "PartituraModel.Props.C05Back", "PartituraModel.Props.C05Ts", "PartituraModel.Props.C05Tables",
-         "PartituraModel.Props.C05Columns", "PartituraModel.Props.C05San"]
+         "PartituraModel.Props.C05Columns", "PartituraModel.Props.C05San", "PartituraModel.Props.C05Stored"]
 TRUSTED = [
     "the timeline reads that describe a part to the model (property C01): len(part._points), first/last point, "
     "_quarter_times/_quarter_durations, iter_all(TimeSignature | KeySignature | Measure) with their start/end times, "
@@ -69,10 +69,14 @@ TRUSTED = [
     "Model/TimeMap.lean (C02) and Model/StepMap.lean (C10); key_mode_to_int(None) = major (C12 table)",
     "numpy structured arrays, np.argsort(kind='mergesort') stable, default argsort = some permutation sorted by key, "
     "np.lexsort, np.hstack, np.lcm.reduce, rfn.merge_arrays; iterating a structured array yields views of its rows",
-    "float32: the model rounds exact rationals with f32round (round to nearest even, 24 bits; compared with numpy.float32 "
-    "on generated values, request `f32`); the binary64 evaluation inside scipy's interpolators is not modelled: the four "
-    "time columns are compared within 2^-20 relative, and the sort key f32(exact beat) is assumed to order the rows like "
-    "f32(binary64 beat) (a difference would need an onset within 2^-52 of a float32 rounding boundary)",
+    "floats: the model rounds exact rationals with f32round / f64round (round to nearest even, 24 / 53 bits; compared "
+    "with numpy.float32 / Python float on generated values, requests `f32`, `f64`).  For Part.note_array and the "
+    "uncollapsed Part.rest_array the binary64 evaluation inside scipy's interpolator and the binary32 store are modelled "
+    "operation by operation (Model/NoteArrayF64.lean) and compared with tolerance 0 (requests `partf`, `restsf`): the "
+    "sort key is the stored column (C05.stored_table_sorted).  np.isclose in the pickup test is evaluated with exact "
+    "thresholds; overflow is not modelled.  Score-level tables, collapsed rest arrays and the inverse direction keep the "
+    "exact-rational model compared within 2^-20 relative (there the sort key f32(exact beat) is assumed to order the "
+    "rows like the stored column)",
     "Fraction.limit_denominator (modelled and compared on every generated value), Python round/int on binary64",
     "estimate_spelling / estimate_voices keep the pitch (C17): in the model of the created part a spelling that keeps "
     "every integer pitch stands for them (`dummySpell`, C12.midi_spelling); tie_notes / find_tuplets / sanitize_part "
@@ -103,6 +107,9 @@ PARTIAL = [
     "every rounding: collapse_total, collapse_merges_adjacent); totals are per VOICE (the code ignores the staff); "
     "the hypotheses CleanTable (rows ordered by onset_div, positive durations, no overlap within a voice) are checked by "
     "the oracle on each generated part, overlapping rests are compared with the model only",
+    "binary64: that the operation-by-operation evaluation (fwd64) stays within a bound of the exact C02 map (fwd) is not "
+    "a theorem; both are tied to the code by the correspondence (tolerance 0 / 2^-20) and row_values_composed speaks of "
+    "the exact map, stored_columns of the binary64 one",
     "inverse direction, sanitize=True: from_to_array_x / time_signature_columns_come_back / key_signature_columns_come_back "
     "are about the table of the created part BEFORE tie_notes (its notes are untied), sanitize_keeps_created_notes (C11 "
     "composed, no side condition) says tie_notes / find_tuplets / sanitize_part keep those rows in C11's representation of "
@@ -151,7 +158,9 @@ LEVEL_TEXT = ("Lean 4 theorems over an executable model of the table constructio
               "come back for every valid array with division columns (theorems, also when a signature returns), sanitize "
               "keeps the created notes (C11 composed, no side condition); falsy-but-valid values are kept (theorem); the "
               "literal data of the source (dtype field lists, option -> map selection, defaults, markers, formats) is "
-              "regenerated on every run and proved equal to what the model implements for all 2^8 option vectors.")
+              "regenerated on every run and proved equal to what the model implements for all 2^8 option vectors; the "
+              "float columns of part-level arrays are modelled bit for bit (binary64 evaluation, binary32 store) and the "
+              "order of the table is proved on the stored column.")
 
 FLOATCOLS = ("onset_beat", "duration_beat", "onset_quarter", "duration_quarter")
 RTOL = 2.0 ** -20
